@@ -4,9 +4,11 @@
    Level "other": the theorems below are about the executable *references* (Invariants/DistRef.v)
    that are extracted and compared with the Go functions on every generated graph, and about
    Gallina models of some of the Go functions; see notes/C10.md for what is proved about which. *)
-From Coq Require Import List ZArith Arith Sorted.
+From Coq Require Import List ZArith Arith Sorted Lia.
 From Mamba Require Import Invariants.Graph Invariants.DistSpec Invariants.DistRef Invariants.DistRefProofs
-  Invariants.DistModel Invariants.DistModelProofs Invariants.CycleRefProofs.
+  Invariants.DistModel Invariants.DistModelProofs Invariants.CycleRefProofs
+  Invariants.ConnModel Invariants.ConnProofs Invariants.BlockRefProofs
+  Invariants.GirthModel Invariants.GirthProofs Invariants.DistRelabel.
 Import ListNotations.
 
 (* Distance: the reference returns d exactly when there is a walk of length d and no shorter
@@ -81,6 +83,50 @@ Theorem C10_diameter_radius_ref : forall g, wf g ->
 Proof. exact diam_rad_ref_spec. Qed.
 Print Assumptions C10_diameter_radius_ref.
 
+(* Relabelling: for every permutation p of the vertices (with inverse q) the distances and the
+   components of the relabelled graph are those of the original graph read through p.  (For the
+   other values invariance under relabelling and representation is explored only.) *)
+Theorem C10_distance_relabel : forall g p q u v, wf g -> perm_on (gn g) p q -> u < gn g -> v < gn g ->
+  zdist (relabel g p) u v = zdist g (p u) (p v).
+Proof. exact zdist_relabel. Qed.
+Print Assumptions C10_distance_relabel.
+
+Theorem C10_component_relabel : forall g p q v x, wf g -> perm_on (gn g) p q -> v < gn g -> x < gn g ->
+  (In x (comp_ref (relabel g p) v) <-> In (p x) (comp_ref g (p v))).
+Proof. exact comp_relabel. Qed.
+Print Assumptions C10_component_relabel.
+
+(* ConnectedComponent / ConnectedComponents: the models of the Go functions (slice of unseen
+   vertices with swap-removal under a downward index, stack of vertices to check, sort) never
+   panic or run out of fuel; ConnectedComponent returns the reference component,
+   ConnectedComponents returns exactly the reference components, each once (the order in which
+   they are found is left open by the property; the harness compares them sorted). *)
+Theorem C10_component_model : forall g v, wf g -> v < gn g ->
+  connected_component_go g v = Done (comp_ref g v).
+Proof. exact connected_component_go_correct. Qed.
+Print Assumptions C10_component_model.
+
+Theorem C10_components_model : forall g, wf g ->
+  exists cs, connected_components_go g = Done cs /\ NoDup cs /\
+    forall c, In c cs <-> In c (comps_ref g).
+Proof. exact connected_components_go_correct. Qed.
+Print Assumptions C10_components_model.
+
+(* BiconnectedComponents (references only; the Go function is compared with them by
+   exploration): the reference articulation vertices are, ascending, exactly the vertices v that
+   separate two other vertices joined in g (not joined in the subgraph induced on V - v); the
+   reference blocks are exactly the inclusion-maximal ascending vertex lists S with G[S]
+   connected and G[S - v] connected for every v in S (isolated vertices and bridges included). *)
+Theorem C10_articulation_ref : forall g, wf g ->
+  StronglySorted lt (artic_ref g) /\
+  forall v, In v (artic_ref g) <-> v < gn g /\ separates g v.
+Proof. exact artic_ref_spec. Qed.
+Print Assumptions C10_articulation_ref.
+
+Theorem C10_blocks_ref : forall g, wf g -> forall S, In S (blocks_ref g) <-> is_block g S.
+Proof. exact blocks_ref_spec. Qed.
+Print Assumptions C10_blocks_ref.
+
 (* The reference enumerators behind NumberOfCycles / NumberOfInducedCycles /
    NumberOfInducedPaths / Girth list exactly the vertex sequences of the definitions, each once:
    simple paths with k edges; cycle sequences with L vertices (a cycle with L vertices has 2L
@@ -115,6 +161,25 @@ Theorem C10_girth_ref : forall g, wf g ->
 Proof. exact girth_ref_spec. Qed.
 Print Assumptions C10_girth_ref.
 
+(* Girth, the Go function (model with the one queue, the distances zeroed per root and the
+   parentVertices slice that keeps stale entries of earlier roots): never panics or runs out of
+   fuel; a returned value other than -1 is witnessed by a cycle of g with at most that many
+   vertices, i.e. it is never below the girth.
+   PARTIAL: that it is never above the girth (and that -1 is returned only for acyclic graphs)
+   is not proved; the full statement would be
+     forall g, wf g -> girth_go g = Done (zgirth g)
+   and is explored by comparing Girth with the proved reference on every generated graph. *)
+Theorem C10_girth_upper_partial : forall g, wf g ->
+  exists r, girth_go g = Done r /\
+    (r = (-1)%Z \/ exists p, is_cycle_seq g p /\ (Z.of_nat (length p) <= r)%Z).
+Proof. exact girth_go_upper_partial. Qed.
+Print Assumptions C10_girth_upper_partial.
+
+Theorem C10_girth_ge_ref_partial : forall g r, wf g -> girth_go g = Done r -> r <> (-1)%Z ->
+  exists L, girth_ref g = Some L /\ (Z.of_nat L <= r)%Z.
+Proof. exact girth_go_ge_ref. Qed.
+Print Assumptions C10_girth_ge_ref_partial.
+
 (* Non-vacuity: a 5-cycle 0-1-2-3-4 with a pendant vertex 5 at 0, plus an isolated edge 6-7. *)
 Definition ex_graph : graph :=
   of_edges 8 [(0,1); (1,2); (2,3); (3,4); (4,0); (0,5); (6,7)].
@@ -124,11 +189,35 @@ Example C10_nonvacuous :
   comp_ref ex_graph 7 = [6; 7].
 Proof. vm_compute. repeat split. Qed.
 
+Definition ex_swap (x : nat) : nat := if x =? 0 then 6 else if x =? 6 then 0 else x.
+Example C10_nonvacuous_relabel :
+  perm_on 8 ex_swap ex_swap /\
+  map (zdist (relabel ex_graph ex_swap) 6) (vertices ex_graph) = [-1; 1; 2; 2; 1; 1; 0; -1]%Z /\
+  comp_ref (relabel ex_graph ex_swap) 0 = [0; 7].
+Proof.
+  split; [|vm_compute; split; reflexivity].
+  split; intros x Hx; do 8 (destruct x as [|x]; [vm_compute; split; (lia || reflexivity)|]); lia.
+Qed.
+
+Example C10_nonvacuous_components :
+  connected_component_go ex_graph 3 = Done [0; 1; 2; 3; 4; 5] /\
+  connected_components_go ex_graph = Done [[6; 7]; [0; 1; 2; 3; 4; 5]].
+Proof. vm_compute. repeat split. Qed.
+
+Example C10_nonvacuous_blocks :
+  artic_ref ex_graph = [0] /\ blocks_ref ex_graph = [[0; 1; 2; 3; 4]; [0; 5]; [6; 7]].
+Proof. vm_compute. repeat split. Qed.
+
 Definition ex_conn : graph := of_edges 6 [(0,1); (1,2); (2,3); (3,4); (4,0); (0,5)].
 Example C10_nonvacuous_cycles :
   girth_ref ex_graph = Some 5 /\ cycles_ref ex_conn = [0; 0; 0; 0; 0; 1; 0] /\
   icycles_ref ex_conn = [0; 0; 0; 0; 0; 1; 0] /\ ipaths_ref ex_conn = [6; 6; 7; 7; 2; 0] /\
   length (cycle_seqs ex_conn 5) = 10 /\ girth_ref (of_edges 4 [(0,1); (1,2); (2,3)]) = None.
+Proof. vm_compute. repeat split. Qed.
+
+Example C10_nonvacuous_girth :
+  girth_go ex_graph = Done 5%Z /\ girth_go (of_edges 4 [(0,1); (1,2); (2,3)]) = Done (-1)%Z /\
+  girth_go (of_edges 6 [(0,1); (1,2); (2,3); (3,4); (4,5); (5,0); (1,4)]) = Done 4%Z.
 Proof. vm_compute. repeat split. Qed.
 
 (* the connected part of it (vertices 0..5): the models run and give non-trivial values *)
